@@ -1,5 +1,6 @@
 import GoldModel.Props.C07
 import GoldModel.Model.Ranges
+import GoldModel.Lemmas.OperatorPairs
 /-!
 # C06 — well-formed programs parse to the intended tree  (PARTIAL)
 
@@ -23,19 +24,6 @@ grammar.  It is established on the implementation by the generator oracle of `vl
 -/
 namespace Gold.C06
 open Gold Gold.Peg Gold.Gram
-
-/-- the ladder the property states, tightest level first -/
-def ladderSpec : List (String × List Kind × String) :=
-  [ ("parse_dot_ops", [Kind.Dot], "parse_dot_op"),
-    ("parse_factors", [Kind.Asterisk, Kind.Divide, Kind.Modulus], "parse_primary"),
-    ("parse_terms", [Kind.Plus, Kind.Minus, Kind.StringConcat, Kind.StringConcat2], "parse_factors"),
-    ("parse_bit_ops_1", [Kind.BAnd], "parse_terms"),
-    ("parse_bit_ops_2", [Kind.BOr, Kind.BXor], "parse_bit_ops_1"),
-    ("parse_shifts", [Kind.LeftShift, Kind.RightShift], "parse_bit_ops_2"),
-    ("parse_compare", [Kind.Equals, Kind.NotEquals, Kind.LessThan, Kind.LessThanOrEqual, Kind.GreaterThan,
-                       Kind.GreaterThanOrEqual, Kind.In, Kind.Like], "parse_shifts"),
-    ("parse_logical_and", [Kind.And], "parse_compare"),
-    ("parse_logical_or", [Kind.Or, Kind.Xor], "parse_logical_and") ]
 
 /-- **the ladder of the code is the ladder of the property** -/
 theorem ladder_spec : Gen.ladder = ladderSpec ∧ Gen.ladderTop = "parse_logical_or" := by decide +kernel
@@ -72,44 +60,13 @@ theorem foldBin_left_assoc (ps : List (Tree × Tree)) (l : Tree) (n : Nat) (hn :
       simp only [hr, Bool.false_eq_true, ↓reduceIte]
       exact ih (binNode l op r) n (by simp at hn; omega) (fun p hp => hc p (List.mem_cons_of_mem _ hp))
 
-/-! ## all operator pairs -/
+/-! ## all operator pairs (the tables are decided in `Lemmas/OperatorPairs.lean`) -/
 
-def opLevels : List (Nat × Kind) :=
-  (ladderSpec.drop 1).zipIdx.flatMap (fun p => p.1.2.1.map (fun k => (p.2, k)))
-
-def tokAt (k : Kind) (v : String) (i : Nat) : Tok := ⟨k, v, ⟨⟨0, 4 * i⟩, ⟨0, 4 * i + 1⟩⟩⟩
-
-/-- shape of a tree: kind, name, children -/
-def shape : Nat → Tree → String
-  | 0, _ => "…"
-  | n+1, t => "(" ++ t.kind ++ " " ++ t.ident ++ String.join (t.kids.map (fun k => " " ++ shape n k)) ++ ")"
-
-def pairOK (p q : Nat × Kind) : Bool :=
-  let ts := [tokAt Kind.Identifier "a" 0, tokAt p.2 p.2.name 1, tokAt Kind.Identifier "b" 2, tokAt q.2 q.2.name 3,
-             tokAt Kind.Identifier "c" 4]
-  match runP Γ Δ 4000 (.ref nExpr) ts with
-  | (.ok [] v, []) =>
-    let a := "(terminal a)"; let b := "(terminal b)"; let c := "(terminal c)"
-    let want :=
-      if p.1 ≤ q.1 then "(bin_op " ++ q.2.name ++ " (bin_op " ++ p.2.name ++ " " ++ a ++ " " ++ b ++ ") " ++ c ++ ")"
-      else "(bin_op " ++ p.2.name ++ " " ++ a ++ " (bin_op " ++ q.2.name ++ " " ++ b ++ " " ++ c ++ "))"
-    shape 5 v == want
-  | _ => false
-
-/-- **precedence and associativity for every ordered pair of binary operators** (22 × 22 pairs
-    below the dot level; the dot level is `dot_pairs`) -/
-theorem operator_pairs : (opLevels.all fun p => opLevels.all fun q => pairOK p q) = true := by decide +kernel
+/-- **precedence and associativity for every ordered pair of binary operators** -/
+theorem operator_pairs : (opLevels.all fun p => opLevels.all fun q => pairOK p q) = true := operator_pairs_table
 
 /-- the member-access dot binds tighter than every binary operator: `a.b op c.d` -/
-def dotOK (p : Nat × Kind) : Bool :=
-  let ts := [tokAt Kind.Identifier "a" 0, tokAt Kind.Dot "." 1, tokAt Kind.Identifier "b" 2, tokAt p.2 p.2.name 3,
-             tokAt Kind.Identifier "c" 4, tokAt Kind.Dot "." 5, tokAt Kind.Identifier "d" 6]
-  match runP Γ Δ 4000 (.ref nExpr) ts with
-  | (.ok [] v, []) =>
-    shape 5 v == "(bin_op " ++ p.2.name ++ " (bin_op . (terminal a) (terminal b)) (bin_op . (terminal c) (terminal d)))"
-  | _ => false
-
-theorem dot_pairs : (opLevels.all dotOK) = true := by decide +kernel
+theorem dot_pairs : (opLevels.all dotOK) = true := dot_pairs_table
 
 /-! ## ranges -/
 
